@@ -628,6 +628,14 @@ fn e_frontend(op: u32, variant: usize) {
         }
         drop(n);
     }
+    // a conformant reply that was accepted has been consumed entirely: the next call on the shared socket starts
+    // at a message boundary (otherwise it would take this reply's tail for the answer to its own request)
+    // SAFETY: ghost state
+    unsafe {
+        if REPLY_CLASS.0 == 0 && g::G.rx_calls > 0 && wit {
+            assert!(g::G.rx_pos == g::G.rx_len, "C10/C03: an accepted reply / acknowledgement is consumed entirely, nothing of it is left on the socket");
+        }
+    }
     // descriptors that ride on a reply which by definition carries none (or on a reply that is refused) never
     // reach the caller: the library must have closed them
     if !matches!(op, fe::GET_INFLIGHT_FD | fe::GET_SHARED_OBJECT | fe::SET_DEVICE_STATE_FD) {
